@@ -15,6 +15,7 @@ import (
 	"sort"
 	"strings"
 	"sync"
+	"sync/atomic"
 	"time"
 )
 
@@ -701,15 +702,16 @@ func init() {
 						cfgR.Htpasswd = nil
 						cfgR.RedisRealTime = true
 						if er, err := newEnv(c, cfgR); err == nil {
-							er.idp.rotateRT = true
+							er.idp.rotateRT = false // (a provider whose refresh tokens are re-usable: a second grant with the same token succeeds)
 							b := newBrowser()
 							if lr := er.login(b, u, "/app/home"); lr.OK {
 								ck := b.cookieHeader()
 								time.Sleep(2100 * time.Millisecond) // older than the 1 s refresh period
+								var grants atomic.Int64
 								er.idp.mu.Lock()
 								er.idp.fault = func(ep string, n int, w http.ResponseWriter, r *http.Request) bool {
-									if ep == "/token" {
-										time.Sleep(500 * time.Millisecond)
+									if ep == "/token" && grants.Add(1) == 1 {
+										time.Sleep(700 * time.Millisecond) // the FIRST grant is slow, later ones are not
 									}
 									return false
 								}
@@ -741,8 +743,8 @@ func init() {
 									// the refresh lock lasts 2 s: a machine on which the refreshing request took this long cannot vouch for the proviso
 									c.count("signout:vs-slow-refresh-skipped-slow")
 								} else if so.Status == 302 && len(r2.Hits) > 0 {
-									c.violation("C11", "a sign-out that arrived while another request was refreshing the session (identity provider answering in 500 ms) reported success, and the refresh then stored the session again: the pre-sign-out cookie still authenticates",
-										map[string]interface{}{"signout_status": so.Status, "idp_token_latency": "500ms"})
+									c.violation("C11", "a sign-out that arrived while another request was refreshing the session (identity provider answering that grant in 700 ms) reported success, and the refresh then stored the session again: the pre-sign-out cookie still authenticates",
+										map[string]interface{}{"signout_status": so.Status, "idp_token_latency_of_the_first_grant": "700ms"})
 								}
 							}
 							er.close()
